@@ -49,10 +49,10 @@ def generate(ctx):
                                 {"kind": "valid:" + style, "nontrivial": style != "plain"},
                                 expect=ser(recs) if reader == "plain" else None))
             cid += 1
-    nbad = 25 if ctx.tier == "quick" else 500
+    nbad = 40 if ctx.tier == "quick" else 800
     for _ in range(nbad):
         w = rng.choice([1, 3, 8])
-        recs = [(gen.rand_name(rng, i), gen.rand_seq(rng, w, gen.SYMS17)) for i in range(rng.randint(1, 4))]
+        recs = [(gen.rand_name(rng, i), gen.rand_seq(rng, w, gen.SYMS17)) for i in range(rng.randint(1, 5))]
         data = gen.layout(rng, recs)
         kind, data = gen.corrupt(rng, data)
         if rng.random() < 0.3:
